@@ -1,6 +1,7 @@
 package main
 
 import (
+	"sort"
 	"bufio"
 	"encoding/hex"
 	"flag"
@@ -186,6 +187,55 @@ func shippedMode(args []string) {
 			sum.OracleFails = append(sum.OracleFails, map[string]any{"kind": "property-oracle", "clause": "a document in the UGC vocabulary is not passed through unchanged (apart from rel=nofollow)", "input_text": doc, "output": got, "want": want})
 		}
 	}
+	// ... and systematically: every documented (element, attribute) pair with documented valid values
+	// (value spaces as documented in helpers.go / HTML: my independent restatement)
+	valid := map[string][]string{
+		"align": {"left", "center", "right", "justify", "char"}, "valign": {"baseline", "bottom", "middle", "top"},
+		"height": {"10", "10%"}, "width": {"10", "25%"}, "span": {"2"}, "colspan": {"2"}, "rowspan": {"3"},
+		"abbr": {"some text"}, "headers": {"h1 h2"}, "scope": {"row", "colgroup"}, "nowrap": {"nowrap"}, "summary": {"a summary"},
+		"cite": {"https://x.test/", "/rel"}, "href": {"http://example.org/", "/p"}, "datetime": {"1997-07-16", "1997-07-16T19:20:30+01:00"},
+		"open": {"open"}, "name": {"m1"}, "alt": {"some text"}, "coords": {"1,2,3"}, "shape": {"rect", "circle"}, "usemap": {"#m1"}, "src": {"/i.png", "https://x.test/i.png"},
+		"type": {"a", "I", "1", "disc"}, "value": {"3"}, "min": {"0"}, "max": {"1"}, "low": {"0.2"}, "high": {"0.8"}, "optimum": {"0.5"},
+		"dir": {"rtl", "ltr"}, "lang": {"en"}, "id": {"a1"}, "title": {"a title"},
+	}
+	override := map[string][]string{"img/align": {"left", "top", "middle", "bottom"}, "ol/type": {"a", "A", "i", "I", "1"}, "ul/type": {"disc", "circle", "square"},
+		"meter/value": {"0.5"}, "progress/value": {"1"}, "progress/max": {"2"}, "li/value": {"3"},
+		// policies.go registers cite on del/ins with the Paragraph pattern (no colon), not as "a standard URL" like blockquote/q
+		"del/cite": {"/rel"}, "ins/cite": {"/rel"}}
+	voidEl := map[string]bool{"br": true, "hr": true, "img": true, "col": true, "area": true, "wbr": true}
+	nPairs := 0
+	var elems []string
+	for e := range vocab {
+		elems = append(elems, e)
+	}
+	sort.Strings(elems)
+	for _, e := range elems {
+		attrs := append(append([]string{}, vocab[e]...), "dir", "lang", "id", "title")
+		for _, a := range attrs {
+			if a == "rel" {
+				continue
+			}
+			vs := valid[a]
+			if o, ok := override[e+"/"+a]; ok {
+				vs = o
+			}
+			for _, v := range vs {
+				doc := "<" + e + " " + a + "=\"" + v + "\">"
+				if !voidEl[e] {
+					doc += "x</" + e + ">"
+				}
+				sum.Evaluations++
+				nPairs++
+				got := ugc.Sanitize(doc)
+				if !strings.Contains(got, "<"+e+" ") || !strings.Contains(got, " "+a+"=\""+v+"\"") {
+					if len(sum.OracleFails) < 20 {
+						sum.OracleFails = append(sum.OracleFails, map[string]any{"kind": "property-oracle", "clause": "a documented attribute with a documented valid value does not pass through UGCPolicy", "input_text": doc, "output": got, "element": e, "attribute": a, "value": v})
+					}
+				}
+			}
+		}
+	}
+	sum.Distribution["documented-element-attribute-value-samples"] = nPairs
 	sum.Nontrivial = len(distinct)
 	sum.Samples = append(sum.Samples, map[string]any{"input": xss[3], "ugc_output": ugc.Sanitize(xss[3]), "strict_output": strict.Sanitize(xss[3])})
 	sum.emit()
